@@ -439,6 +439,113 @@ func main() {
 	fmt.Fprintf(&out, "/-- validateExtractedCollection: ranges enclosing the checksum guard, lookup key of the tracked file, skip statements, guard arguments -/\ndef extractedRange : String := %q\ndef extractedKey : String := %q\ndef extractedSkips : Bool := %s\ndef extractedArgs : List String := %s\n\n",
 		extractedRange, extractedKey, leanBool(extractedSkips), leanList(extractedArgs))
 
+	// ---- 2d. every `n, err := X.Read(..)` of the package: is `n` examined (in an `if` condition) before `err`?
+	// (`n > 0` together with io.EOF is legal: the bytes count.)
+	readSites := []string{}
+	for name, fn := range p.funcs {
+		if strings.HasPrefix(name, ".") || fn.Body == nil {
+			continue
+		}
+		ast.Inspect(fn.Body, func(x ast.Node) bool {
+			blk, ok := x.(*ast.BlockStmt)
+			if !ok {
+				return true
+			}
+			for i, st := range blk.List {
+				as, ok := st.(*ast.AssignStmt)
+				if !ok || len(as.Lhs) != 2 || len(as.Rhs) != 1 {
+					continue
+				}
+				call, ok := as.Rhs[0].(*ast.CallExpr)
+				if !ok {
+					continue
+				}
+				sel, ok := call.Fun.(*ast.SelectorExpr)
+				if !ok || sel.Sel.Name != "Read" || len(call.Args) != 1 {
+					continue
+				}
+				nName, errName := exprString(as.Lhs[0]), exprString(as.Lhs[1])
+				order := "unused"
+				for _, later := range blk.List[i+1:] {
+					ifs, ok := later.(*ast.IfStmt)
+					if !ok {
+						continue
+					}
+					usesN, usesErr := false, false
+					ast.Inspect(ifs.Cond, func(y ast.Node) bool {
+						if id, ok := y.(*ast.Ident); ok {
+							usesN = usesN || id.Name == nName
+							usesErr = usesErr || id.Name == errName
+						}
+						return true
+					})
+					if usesN {
+						order = "n-first"
+						break
+					}
+					if usesErr {
+						order = "err-first"
+						break
+					}
+				}
+				readSites = append(readSites, name+":"+order)
+			}
+			return true
+		})
+	}
+	sort.Strings(readSites)
+	fmt.Fprintf(&out, "/-- `n, err := r.Read(p)` call sites: which of the two results an `if` examines first -/\ndef readSites : List String := %s\n\n", leanList(readSites))
+
+	// ---- 2e. JSON decoders of whole files: `json.Unmarshal(bytes, &v)` (whole slice), a Decoder whose Decode is
+	// followed by an end-of-input check (second Decode compared with io.EOF, or More()), or a Decoder that takes
+	// the first value only
+	jsonShape := func(fnName string) string {
+		fn := p.funcs[fnName]
+		if fn == nil || fn.Body == nil {
+			return "missing-function"
+		}
+		unmarshal, decodes, eofCheck, decoder := 0, 0, false, false
+		calls(fn.Body, func(c *ast.CallExpr, name string, selector bool) {
+			if !selector {
+				return
+			}
+			switch name {
+			case "Unmarshal":
+				unmarshal++
+			case "NewDecoder":
+				decoder = true
+			case "Decode":
+				decodes++
+			case "More":
+				eofCheck = true
+			}
+		})
+		ast.Inspect(fn.Body, func(x ast.Node) bool {
+			if be, ok := x.(*ast.BinaryExpr); ok && (be.Op == token.NEQ || be.Op == token.EQL) {
+				if exprString(be.X) == "io.EOF" || exprString(be.Y) == "io.EOF" {
+					eofCheck = true
+				}
+			}
+			return true
+		})
+		switch {
+		case decoder && decodes >= 2 && eofCheck:
+			return "decoder+eof-check"
+		case decoder && eofCheck:
+			return "decoder+eof-check"
+		case decoder:
+			return "decoder-first-value"
+		case unmarshal > 0:
+			return "unmarshal-whole-slice"
+		}
+		return "none"
+	}
+	decoders := []string{}
+	for _, fnName := range []string{"readManifest", "readDumpCheckpoint", "readEncryptedArchiveHeader", "readCompressedJSONLinesFromReader", "readArchiveKeyBytes"} {
+		decoders = append(decoders, fnName+":"+jsonShape(fnName))
+	}
+	fmt.Fprintf(&out, "/-- how each reader of a JSON document decodes it -/\ndef jsonDecoders : List String := %s\n\n", leanList(decoders))
+
 	// ---- 3. extraction
 	flags := []string{}
 	if fn := p.funcs["unpackTarFileTracked"]; fn != nil {
